@@ -282,7 +282,10 @@ def impl_named_dag(case):
         pkg = h.to_proto([mods[t] for t in case["tops"]])
     except RuntimeError as ex:
         return {"refused": str(ex)[-160:]}
-    return {"ok": [next(s.width for s in pm.signals if s.name == "tag") - 1 for pm in pkg.modules]}
+    tags = [next((s.width for s in pm.signals if s.name == "tag"), None) for pm in pkg.modules]
+    if None in tags:
+        return {"lost_signal": [pm.name for pm, t in zip(pkg.modules, tags) if t is None]}
+    return {"ok": [t - 1 for t in tags]}
 
 
 def line_named_dag(case):
@@ -290,6 +293,9 @@ def line_named_dag(case):
 
 
 def judge_named_dag(case, im, mo):
+    if "lost_signal" in im:
+        yield ("corr", f"modules exported without their (unconnected) internal signal `tag`: {im["lost_signal"]} — the stream cannot tell the modules apart")
+        return
     if "ok" in im:
         names = [case["names"][k] for k in im["ok"]]
         if len(set(names)) != len(names):
@@ -312,7 +318,8 @@ def run(ctx):
     )
     # 1. generated designs
     n = 200 if ctx.quick else 4000
-    cases = designs.gen_cases(ctx.rng, n, accept=True, netlist=False)
+    c01 = __import__("props.c01", fromlist=["x"])
+    cases = [dict(c, accept=True, netlist=False) for c in c01.corpus()] + designs.gen_cases(ctx.rng, n, accept=True, netlist=False)
     nexp = 0
     for c, im, mo in designs.run_designs(ctx, cases):
         if "pkg" not in im:
